@@ -3,8 +3,12 @@ package props
 import (
 	"context"
 	"encoding/base64"
+	"errors"
 	"fmt"
+	"io"
+	"net"
 	"net/http"
+	"syscall"
 	"reflect"
 	"strings"
 	"sync"
@@ -25,6 +29,7 @@ type c13Desc struct {
 	Status    int      `json:"status"`
 	Conn      hv       `json:"connection"`
 	Host      string   `json:"host_override"`
+	URLHost   string   `json:"url_host,omitempty"`
 	Scheme    string   `json:"scheme"`
 	Headers   bool     `json:"custom_headers"`
 	Conflict  bool     `json:"caller_headers_named_like_handshake_headers,omitempty"`
@@ -115,7 +120,10 @@ func c13Gen(tier string, seed int64) []fw.Case {
 			for _, st := range c13Status {
 				for _, cn := range c11Conn {
 					d := c13Desc{Mode: mode, Requested: req, Status: st, Conn: cn}
-					d.Host = []string{"", "override.test:99"}[i%2]
+					// (override with and without a port, in upper case, as an IPv6 literal; URL with and without a port:
+					// the override goes out exactly as given, whatever the URL's port is)
+					d.Host = []string{"", "override.test:99", "override.test", "", "OverRide.TEST", "[2001:db8::1]", "override.test:81"}[i%7]
+					d.URLHost = []string{"dial.test:81", "dial.test", "dial.test:80", "dial.test:443", "dial.test:8443"}[(i/7)%5]
 					d.Scheme = []string{"ws", "wss", "http", "https"}[i%4]
 					d.Headers = i%3 != 0
 					d.Conflict = d.Headers && i%5 == 0
@@ -129,7 +137,65 @@ func c13Gen(tier string, seed int64) []fw.Case {
 		d := c13Desc{Mode: i % 3, Status: -1}
 		cases = append(cases, fw.Case{Name: "concurrent-dials", Desc: d, Run: func(r *fw.R) { c13Concurrent(r, d) }})
 	}
+	// the transport loses the first request(s): whether Dial gives up or tries again is its business, but EVERY
+	// request it sends is a well-formed upgrade request with a key of its own
+	for i := 0; i < tierPick(tier, 12, 60); i++ {
+		d := c13Desc{Mode: i % 3, Status: -2, Scheme: []string{"ws", "wss", "http", "https"}[i%4], Host: []string{"", "override.test"}[(i/3)%2]}
+		if i%2 == 1 {
+			d.Requested = []string{"chat", "echo"}
+		}
+		cases = append(cases, fw.Case{Name: "requests-lost-at-the-transport", Desc: d, Run: func(r *fw.R) { c13Lost(r, d) }})
+	}
 	return cases
+}
+
+// c13Lost: the RoundTripper fails the first one or two requests of a Dial the way a lost connection does, then
+// answers with a correct 101. All requests seen are inspected (format, and key uniqueness across the process).
+func c13Lost(r *fw.R, d c13Desc) {
+	r.SetSample(d)
+	lost := []error{io.EOF, io.ErrUnexpectedEOF, syscall.ECONNRESET, syscall.EPIPE,
+		&net.OpError{Op: "read", Net: "tcp", Err: syscall.ECONNRESET}, &net.OpError{Op: "write", Net: "tcp", Err: syscall.EPIPE},
+		errors.New("http: server closed idle connection"), errors.New("net/http: HTTP/1.x transport connection broken: unexpected EOF"),
+		fmt.Errorf("proxy: %w", io.ErrUnexpectedEOF), net.ErrClosed}
+	for _, lerr := range lost {
+		for nfail := 1; nfail <= 2; nfail++ {
+			var reqs []*http.Request
+			libEnd, peerEnd := xport.Pair(xport.Plan{NoTap: true}, xport.Plan{NoTap: true})
+			rt := c13RT{func(req *http.Request) (*http.Response, error) {
+				reqs = append(reqs, req)
+				if len(reqs) <= nfail {
+					return nil, lerr
+				}
+				h := http.Header{}
+				h.Set("Connection", "Upgrade")
+				h.Set("Upgrade", "websocket")
+				h.Set("Sec-WebSocket-Accept", attach.AcceptKey(req.Header.Get("Sec-WebSocket-Key")))
+				return &http.Response{StatusCode: 101, Status: "101 Switching Protocols", Proto: "HTTP/1.1", ProtoMajor: 1, ProtoMinor: 1, Header: h, Body: libEnd, Request: req}, nil
+			}}
+			ctx, cancel := context.WithTimeout(context.Background(), 20*time.Second)
+			c, _, err := websocket.Dial(ctx, d.Scheme+"://"+c13URLHost(d)+"/path?q=1", &websocket.DialOptions{HTTPClient: &http.Client{Transport: rt}, Host: d.Host, Subprotocols: d.Requested, CompressionMode: websocket.CompressionMode(d.Mode)})
+			cancel()
+			if c != nil {
+				c.CloseNow()
+			}
+			peerEnd.Close()
+			libEnd.Close()
+			r.Count("dials", 1)
+			r.Count("dials_whose_first_request_was_lost", 1)
+			what := fmt.Sprintf("mode=%d requested=%q: the transport failed the first %d request(s) with %q (Dial returned %v after %d requests)", d.Mode, d.Requested, nfail, lerr, err, len(reqs))
+			if len(reqs) == 0 {
+				r.Violate("C13/no-request", what+": Dial made no request", "")
+				return
+			}
+			for _, req := range reqs {
+				c13CheckRequest(r, d, req, nil, nil, what)
+			}
+			if len(reqs) > 1 {
+				r.Count("requests_sent_again_after_a_lost_one", int64(len(reqs)-1))
+			}
+			r.Key("lost-request/attempts=%d/dial-ok=%v", min(len(reqs), 3), err == nil)
+		}
+	}
 }
 
 // c13Concurrent overlaps many Dial calls: every attempt must still send its own fresh, well formed key.
@@ -279,7 +345,7 @@ func c13Run(r *fw.R, d c13Desc) {
 						CompressionMode: websocket.CompressionMode(d.Mode),
 					}
 					ctx, cancel := context.WithTimeout(context.Background(), 20*time.Second)
-					c, _, err := websocket.Dial(ctx, d.Scheme+"://dial.test:81/path?q=1", opts)
+					c, _, err := websocket.Dial(ctx, d.Scheme+"://"+c13URLHost(d)+"/path?q=1", opts)
 					cancel()
 					r.Count("dials", 1)
 					what := fmt.Sprintf("mode=%d requested=%q status=%d Connection=%q Upgrade=%q accept=%s subprotocol=%q extensions=%q", d.Mode, d.Requested, d.Status, d.Conn.Lines, up.Lines, acc, sub, ext.Header)
@@ -368,7 +434,7 @@ func c13CheckRequest(r *fw.R, d c13Desc, req *http.Request, hdr, hdrCopy http.He
 		bad("method", "method "+req.Method)
 	}
 	wantScheme := map[string]string{"ws": "http", "wss": "https", "http": "http", "https": "https"}[d.Scheme]
-	if req.URL.Scheme != wantScheme || req.URL.Host != "dial.test:81" || req.URL.Path != "/path" || req.URL.RawQuery != "q=1" {
+	if req.URL.Scheme != wantScheme || req.URL.Host != c13URLHost(d) || req.URL.Path != "/path" || req.URL.RawQuery != "q=1" {
 		bad("url", "request URL "+req.URL.String())
 	}
 	if !hasToken(req.Header.Values("Connection"), "upgrade") {
@@ -471,7 +537,7 @@ func c13CheckRequest(r *fw.R, d c13Desc, req *http.Request, hdr, hdrCopy http.He
 	}
 	wantHost := d.Host
 	if wantHost == "" {
-		wantHost = "dial.test:81"
+		wantHost = c13URLHost(d)
 	}
 	if req.Host != wantHost && !(d.Host == "" && req.Host == "") {
 		bad("host", fmt.Sprintf("req.Host=%q want %q", req.Host, wantHost))
@@ -496,4 +562,11 @@ func hasToken(lines []string, tok string) bool {
 		}
 	}
 	return false
+}
+
+func c13URLHost(d c13Desc) string {
+	if d.URLHost == "" {
+		return "dial.test:81"
+	}
+	return d.URLHost
 }
